@@ -1,4 +1,5 @@
 """C02 Changing one token changes only that token's characters."""
+import decimal
 from .. import common, gen, values, walker, storemodel
 from autobean_refactor import models
 
@@ -6,7 +7,8 @@ CASES = {'quick': 3000, 'thorough': 60000}
 SMALL_BLOCKS = 4      # runner: every 4th case keeps its stores in 2..10-token blocks
 GATES = {
     'quick': {'cases_in_small_blocks': 50, 'evaluations': 8000, 'assign_value': 3000, 'assign_raw_text': 1500, 'assign_indent': 150, 'token_classes_assigned': 12,
-              'multiline_new_text': 300, 'assign_raw_text_respelling': 330},
+              'multiline_new_text': 300, 'assign_raw_text_respelling': 330,
+              'value_assignments_compared_with_a_fresh_token': 3000, 'assign_value_same_number_other_scale': 60},
     'thorough': {'evaluations': 250000, 'token_classes_assigned': 14},
 }
 RULE = ('case = one accepted generated document (stores squeezed into 2..10-token blocks in half of the cases), then 3..10 (thorough ..25) '
@@ -14,7 +16,8 @@ RULE = ('case = one accepted generated document (stores squeezed into 2..10-toke
         'text), values from the in-domain generators. One evaluation = one assignment checked: the identity sequence of the store is '
         'unchanged, every other token keeps its text, and print == old[:a] + token.raw_text + old[b:]. Non-trivial = the new raw text '
         'differs from the old; distinct = hash(text, token ordinal, new raw text).')
-ASSUMPTIONS = ['the new raw text is read back from the token (whether it denotes the value is C12\'s business)']
+RULE += (' Also (round 13): after a value assignment the token\'s new raw text must be the text a fresh token made from the same value has (an assignment that is silently dropped, or renders another object, leaves the old text - invisible to the span oracle, which reads the new text from the token); a third of the Number assignments write the same number at another scale (1234.5 -> 1234.50).')
+ASSUMPTIONS = ['after raw_text / indent assignments the new raw text is read back from the token (whether it denotes the value is C12\'s business)']
 
 _classes = set()
 
@@ -54,9 +57,22 @@ def run_case(col, r, idx):
                     v = values.value_for(r, t)
                     if v is None:
                         continue
+                    if isinstance(t, models.Number) and r.random() < 0.3:
+                        # the same number at another scale (round 13): 1234.5 -> 1234.50 is a new value for a lossless editor
+                        cur = format(t.value, 'f')
+                        v = decimal.Decimal(cur + '0' if '.' in cur else cur + '.0')
+                        col.count('assign_value_same_number_other_scale')
                     desc = ('value', cname, i, repr(v))
                     t.value = v
                     col.count('assign_value')
+                    # "the token's new raw text" is the text of the value just assigned: what a fresh token made from the same value has
+                    fresh = (models.BlockComment.from_value(v, indent=t.indent) if isinstance(t, models.BlockComment) else type(t).from_value(v)).raw_text
+                    col.count('value_assignments_compared_with_a_fresh_token')
+                    if t.raw_text != fresh:
+                        col.ev()
+                        col.violation(f'value-assignment-not-taken:{cname}', f'after value = {v!r} the token reads {t.raw_text!r}; a fresh '
+                                      f'{cname} made from that value reads {fresh!r}', {'text': text, 'lf': lf, 'log': log + [desc]})
+                        return
                 elif kind == 'raw_text':
                     new = values.respell(r, t) if r.random() < 0.4 else None     # same value, other characters
                     if new is not None and new != t.raw_text:
